@@ -10,6 +10,8 @@ feeding for short streams, random partitions and output grants otherwise, flat a
 -/
 import MinizProof.Spec.Inflate
 import MinizProof.Lemmas.CoreGrow
+import MinizProof.Lemmas.CoreSession
+import MinizProof.Props.C03
 set_option maxRecDepth 100000
 namespace C07
 open Spec
@@ -94,11 +96,10 @@ exactly where the whole-input read passes through; a stored-block or match copy 
 of the chunk / window is completed by the resumed run in the same place (`copyIn_add`,
 `copyBytes_add`, ring source positions modulo the ring size).
 
-What these `_partial` theorems do NOT yet cover of the property: the glue of `decompress` between two
-calls — the next call restarts its input cursor at 0 on the next chunk, masks the bit buffer and
-updates the running Adler-32 per call. That glue is compared on every run (every cut point of short
-streams, byte-wise feeding, random chunkings and output grants, flat and ring), and every real call is
-replayed through `Model.Core.decompress`. -/
+These two are statements about one run of the automaton. The glue of `decompress` between two calls
+— the next call restarts its input cursor at 0 on the next chunk, masks the bit buffer, gives back
+read-ahead bytes and updates the running Adler-32 per call — is covered by the call-level theorems
+at the end of this file (`two_calls_equal_one_call`, `any_number_of_calls_equal_one_call`). -/
 open Model.Core in
 /-- INPUT SPLIT. If the automaton run over the chunk `e.inp` stops starved ("needs more input")
     in `(c1, out1)`, then the run over the whole input `e.inp ++ b` resumed from `(c1, out1)` and the
@@ -133,5 +134,93 @@ example : (Model.Core.run { inp := #[0x01, 0x02, 0x00, 0xfd, 0xff, 0x41, 0x42], 
 
 example : IsPrefix #[1, 2] #[1, 2, 3] := ⟨by decide, by intro i hi; match i, hi with | 0, _ => rfl | 1, _ => rfl⟩
 example : bitsAt #[0xA5] 0 8 = some 0xA5 := by decide +kernel
+
+/-! ### Call level: `decompress` called repeatedly against `decompress` called once
+
+`Bnd r` is the bit-buffer discipline of the registers a call starts from (`Lemmas/CoreBnd`): the bit
+buffer holds nothing above its `numBits` bits; fewer than 8 bits are buffered unless the previous call
+stopped starved inside a read that needs more bits than are buffered; byte-reading states have an
+empty bit buffer; the code-length code is decided by 7 bits. A fresh decoder satisfies it
+(`fresh_decoder_is_disciplined`) and every suspended call re-establishes it (last conjuncts below), so
+it holds at every call boundary of every call sequence that starts from a fresh decoder.
+Proved from: re-basing of a run onto a longer input (`Lemmas/CoreShift`, one equation per state), the
+discipline as an invariant of every transition (`Lemmas/CoreBnd`), the two run-level theorems above,
+"a run that does not stop for lack of room is the same under a larger window", uniqueness and
+existence of run results, and the algebra of the epilogue (Adler-32 of a concatenation).
+
+Scope: the same flags word in every call; flat or ring buffer as long as the calls write to
+consecutive positions of ONE buffer (no wrap-around between calls: the ring case of a window handed
+back to the start is compared on runs, not proved); windows never shrink. Total input consumed and
+the saved registers are stated for every outcome except a failed stream (after a failure the real
+decoder, too, cannot give back bytes it took in an earlier call), the registers also not for input
+truncated without the more-input flag (the checksum register then differs by the first call's part). -/
+open Model.Core in
+theorem fresh_decoder_is_disciplined : Bnd ({} : Regs) := Bnd_fresh
+
+open Model.Core in
+/-- TWO CALLS = ONE CALL, for EVERY input (valid or not), split point, budgets and flags. -/
+theorem two_calls_equal_one_call (r : Regs) (a b out : Array UInt8) (pos budget1 budget2 flags : Nat)
+    (hb : Bnd r) (hg : badGeometry flags out.size pos = false)
+    (hs : (decompress r a out pos budget1 flags).status = stNeedsMoreInput ∨
+          (decompress r a out pos budget1 flags).status = stHasMoreOutput)
+    (hbud : budget1 ≤ (decompress r a out pos budget1 flags).written + budget2) :
+    let res1 := decompress r a out pos budget1 flags
+    let res2 := decompress res1.r (a.extract res1.consumed a.size ++ b) res1.out (pos + res1.written) budget2 flags
+    let res := decompress r (a ++ b) out pos (res1.written + budget2) flags
+    res.status = res2.status ∧ res.out = res2.out ∧ res.written = res1.written + res2.written ∧
+    (res.status ≠ stFailed → res.consumed = res1.consumed + res2.consumed) ∧
+    (res.status ≠ stFailed → res.status ≠ stFailedCannotMakeProgress → res.r = res2.r) ∧
+    Bnd res1.r ∧
+    (res2.status = stNeedsMoreInput ∨ res2.status = stHasMoreOutput → Bnd res2.r) :=
+  decompress_resume r a b out pos budget1 budget2 flags hb hg hs hbud
+
+open Model.Core in
+/-- ANY NUMBER OF CALLS = ONE CALL. `runCalls` is the driver: each call is offered what the previous
+    call left unconsumed followed by a new chunk of any length (empty included), writes where the
+    previous call stopped, and may fill the buffer up to the total grant so far. For every such
+    schedule whose calls but the last are suspended, the last call reports what the single call on
+    all the input with the final grant reports. -/
+theorem any_number_of_calls_equal_one_call (flags pos0 : Nat) (calls : List (Array UInt8 × Nat)) (r : Regs)
+    (out : Array UInt8) (pos : Nat) (carry c : Array UInt8) (g : Nat)
+    (hb : Bnd r) (hg : badGeometry flags out.size pos = false) (hmono : grantsMono ((c, g) :: calls))
+    (hsus : ∀ res ∈ (runCalls flags pos0 r out pos carry ((c, g) :: calls)).dropLast, suspended res)
+    (last : Res) (hlast : (runCalls flags pos0 r out pos carry ((c, g) :: calls)).getLast? = some last) :
+    let one := decompress r (carry ++ catChunks ((c, g) :: calls)) out pos (pos0 + lastGrant ((c, g) :: calls) - pos) flags
+    one.status = last.status ∧ one.out = last.out ∧
+    one.written = sumWritten (runCalls flags pos0 r out pos carry ((c, g) :: calls)) ∧
+    (one.status ≠ stFailed → one.consumed = sumConsumed (runCalls flags pos0 r out pos carry ((c, g) :: calls))) ∧
+    (one.status ≠ stFailed → one.status ≠ stFailedCannotMakeProgress → one.r = last.r) :=
+  runCalls_last flags pos0 calls r out pos carry c g hb hg hmono hsus last hlast
+
+open Model.Core in
+/-- With C03: a valid raw stream fed to a fresh decoder in ANY chunks with ANY non-shrinking grants
+    (flat buffer) ends — whenever the calls before the last were suspended — with `Done`, exactly the
+    specified bytes, and exactly ⌈bits/8⌉ bytes consumed in total. -/
+theorem valid_stream_under_any_schedule (flags : Nat) (calls : List (Array UInt8 × Nat)) (out : Array UInt8)
+    (c : Array UInt8) (g maxDist : Nat) (res : Spec.Inflated)
+    (hflat : hasFlag flags fNonWrapping = true) (hz : hasFlag flags fParseZlib = false)
+    (hstop : hasFlag flags fStopOnBlockBoundary = false)
+    (hspec : Spec.inflateSpec (out.extract 0 0) maxDist (#[] ++ catChunks ((c, g) :: calls)) 0 = .accept res)
+    (hroom : 0 + res.out.size ≤ min (0 + (0 + lastGrant ((c, g) :: calls) - 0)) out.size)
+    (hmono : grantsMono ((c, g) :: calls))
+    (hsus : ∀ r ∈ (runCalls flags 0 {} out 0 #[] ((c, g) :: calls)).dropLast, suspended r)
+    (last : Res) (hlast : (runCalls flags 0 {} out 0 #[] ((c, g) :: calls)).getLast? = some last) :
+    last.status = stDone ∧
+    sumWritten (runCalls flags 0 {} out 0 #[] ((c, g) :: calls)) = res.out.size ∧
+    sumConsumed (runCalls flags 0 {} out 0 #[] ((c, g) :: calls)) = (res.bitsUsed + 7) / 8 ∧
+    (∀ i, i < res.out.size → last.out[0 + i]? = res.out[i]?) := by
+  have hgeo : badGeometry flags out.size 0 = false := by
+    simp [badGeometry, hflat]
+  obtain ⟨h1, h2, h3, h4, _⟩ := any_number_of_calls_equal_one_call flags 0 calls {} out 0 #[] c g Bnd_fresh hgeo hmono hsus last hlast
+  obtain ⟨o1, o2, o3, o4⟩ := C03.valid_raw_stream_decodes_one_shot {} (#[] ++ catChunks ((c, g) :: calls)) out 0
+    (0 + lastGrant ((c, g) :: calls) - 0) flags maxDist res rfl ⟨rfl, rfl, rfl⟩ hflat hz hstop (Nat.zero_le _) hspec hroom
+  refine ⟨by rw [← h1]; exact o1, by rw [← h3]; exact o2, ?_, fun i hi => by rw [← h2]; exact o4 i hi⟩
+  rw [← h4 (by rw [o1]; decide)]; exact o3
+
+/-- The hypotheses are satisfiable: a stored block split inside its header with a one-byte first
+    grant — first call suspended, second call `Done`. -/
+example : ((Model.Core.runCalls 6 0 {} (Array.replicate 4 0) 0 #[]
+    [(#[0x01, 0x02, 0x00], 1), (#[0xfd, 0xff, 0x41, 0x42], 4)]).map (·.status)) =
+    [Model.Core.stNeedsMoreInput, Model.Core.stDone] := by decide +kernel
 
 end C07
